@@ -373,6 +373,26 @@ def build_molecule(en: Enums, spec: dict, cls=None):
     return m
 
 
+def set_weights(rng, ens):
+    """non-uniform conformer weights: distinct, with ties, with zeros, or left uniform"""
+    import numpy as np
+
+    k = ens.n_conformers
+    mode = rng.below(5)
+    if mode == 0 or k == 0:
+        return "uniform"
+    if mode == 1:
+        w = [float(rng.range(1, 1000)) / 100.0 for _ in range(k)]
+    elif mode == 2:
+        w = [float(rng.choice([1, 2, 2, 3])) for _ in range(k)]
+    elif mode == 3:
+        w = [float(rng.choice([0, 0, 1, 5])) for _ in range(k)]
+    else:
+        w = [float(i + 1) for i in range(k)]          # strictly increasing: the reverse of "most populated first"
+    ens.weights = np.array(w)
+    return "weights=" + ",".join(str(x) for x in w)
+
+
 def canon_ensemble(en: Enums, ens) -> list:
     """the conformers of an ensemble as canonical molecules, taken from its ARRAYS (coords, atomic_charges, atoms,
     bonds) — not through iteration or conformer views, which are what the writers use"""
@@ -396,7 +416,7 @@ def grow_ensemble(rng, en, ml, base: dict, make_conf, dump, n_ops: int):
     a random order that always contains dump -> grow -> dump. `make_conf()` gives a new conformer (molli Molecule of the
     same atoms), `dump(ens, step)` is called for every dump step. Returns the list of steps taken."""
     ens = ml.ConformerEnsemble([make_conf() for _ in range(rng.range(1, 3))])
-    steps = []
+    steps = [set_weights(rng, ens)]
     plan = [rng.choice(["dump", "iterate", "append", "extend-list", "extend-ensemble"]) for _ in range(n_ops)]
     plan += ["dump", rng.choice(["extend-list", "extend-ensemble", "append"]), "dump",
              rng.choice(["extend-list", "extend-ensemble"]), "iterate", rng.choice(["append", "extend-list"]), "dump"]
